@@ -14,6 +14,8 @@ import (
 	"github.com/anishathalye/porcupine"
 	"pgregory.net/rapid"
 
+	"github.com/truora/minidyn/core"
+
 	"verifharness/drv"
 	"verifharness/model"
 	"verifharness/stats"
@@ -27,6 +29,12 @@ type c11Case struct {
 	Setup   []model.Op   `json:"setup"`
 	Threads [][]model.Op `json:"threads"`
 	Runs    int          `json:"runs"`
+	// Pauses: the n-th passage (counted over all goroutines of a run) through
+	// a yield point inside the table operations sleeps ~1.5 ms while the
+	// client lock is held. A mutex whose waiter has waited > 1 ms hands over
+	// directly at the next Unlock, so a lock that is dropped and re-taken in
+	// the middle of an operation is interleaved with high probability.
+	Pauses []int `json:"pauses,omitempty"`
 }
 
 // ---- sequential specification of the single-item "counter item" operations
@@ -170,6 +178,19 @@ type c11Info struct {
 func runC11(c c11Case, info *c11Info) *failure {
 	for run := 0; run < c.Runs; run++ {
 		d := newC11Driver(c.Client)
+		var passages int64
+		pauses := map[int64]bool{}
+		for _, p := range c.Pauses {
+			pauses[int64(p)] = true
+		}
+		core.VerifYield = nil
+		if len(pauses) > 0 {
+			core.VerifYield = func(string) {
+				if pauses[atomic.AddInt64(&passages, 1)] {
+					time.Sleep(1500 * time.Microsecond)
+				}
+			}
+		}
 		var clock int64
 		var mu sync.Mutex
 		var history []porcupine.Operation
@@ -214,6 +235,7 @@ func runC11(c c11Case, info *c11Info) *failure {
 		close(start)
 		select {
 		case <-done:
+			core.VerifYield = nil
 		case <-time.After(30 * time.Second):
 			buf := make([]byte, 1<<20)
 			n := runtime.Stack(buf, true)
@@ -285,7 +307,7 @@ func init() {
 	}
 }
 
-const ruleC11 = "rapid generates concurrent programs (sequential setup + 2-8 goroutines x 2-10 operations released from a barrier), each executed repeatedly on a fresh SDK v1 or v2 client in a binary built with the Go race detector (GORACE=halt_on_error): 'data' programs over a tiny key space of counter items (PutItem, conditional PutItem attribute_not_exists, UpdateItem ADD 1, GetItem, DeleteItem ALL_OLD, conditional DeleteItem) whose invoke/return-stamped histories, completed by final reads, are checked for linearizability with porcupine against the sequential counter-item specification (this subsumes 'N concurrent ADD-1 yield N' and 'exactly one of N racing conditional puts succeeds', both also generated as dedicated programs); 'mixed' programs over every client method (CreateTable / DeleteTable / UpdateTable / DescribeTable, batch calls, TransactWriteItems, Query, Scan, ClearTable, failure toggling, data operations). Oracles: race detector report (the program being executed is recorded before it starts), runtime panic or fatal error, deadlock watchdog (goroutine parked in Mutex.Lock inside minidyn), linearizability, SortedKeys/Data consistency afterwards. Non-trivial = program in which >= 2 goroutines touch the same key or the table catalogue; distinct = hash of the program."
+const ruleC11 = "rapid generates concurrent programs (sequential setup + 2-8 goroutines x 2-10 operations released from a barrier), each executed repeatedly on a fresh SDK v1 or v2 client in a binary built with the Go race detector (GORACE=halt_on_error), two thirds of them with a generated pause plan (the n-th passage through a verif yield point inside the table operations sleeps 1.5 ms while the client lock is held, which puts the mutex into hand-off mode so that a lock dropped and re-taken inside an operation is interleaved): 'data' programs over a tiny key space of counter items (PutItem, conditional PutItem attribute_not_exists, UpdateItem ADD 1, GetItem, DeleteItem ALL_OLD, conditional DeleteItem) whose invoke/return-stamped histories, completed by final reads, are checked for linearizability with porcupine against the sequential counter-item specification (this subsumes 'N concurrent ADD-1 yield N' and 'exactly one of N racing conditional puts succeeds', both also generated as dedicated programs); 'mixed' programs over every client method (CreateTable / DeleteTable / UpdateTable / DescribeTable, batch calls, TransactWriteItems, Query, Scan, ClearTable, failure toggling, data operations). Oracles: race detector report (the program being executed is recorded before it starts), runtime panic or fatal error, deadlock watchdog (goroutine parked in Mutex.Lock inside minidyn), linearizability, SortedKeys/Data consistency afterwards. Non-trivial = program in which >= 2 goroutines touch the same key or the table catalogue; distinct = hash of the program."
 
 // TestC11 decides property C11.
 func TestC11(t *testing.T) {
@@ -376,6 +398,9 @@ func TestC11(t *testing.T) {
 				c.Threads = append(c.Threads, ops)
 			}
 			shared = true
+		}
+		if rapid.IntRange(0, 2).Draw(rt, "withPauses") > 0 {
+			c.Pauses = rapid.SliceOfNDistinct(rapid.IntRange(1, 40), 1, 6, rapid.ID[int]).Draw(rt, "pauses")
 		}
 		// always record the program before running it: a race report or a
 		// fatal error ends the process
